@@ -1,0 +1,250 @@
+// Verification hooks. Compiled only with `--cfg flacenc_verif`; never part of
+// a normal build.
+//
+// This module gives an external verification harness (1) direct access to
+// crate-internal pure functions for differential testing against a formal
+// model, (2) a log of the float-derived intermediate values ("oracle") that
+// the encoder's decision logic consumes, and (3) scheduling points inside the
+// multi-thread encoder that log protocol events and perturb the schedule.
+
+#![allow(missing_docs, clippy::missing_panics_doc, clippy::missing_errors_doc)]
+
+use std::cell::RefCell;
+use std::collections::HashMap;
+use std::sync::Mutex;
+
+use crate::component::QuantizedParameters;
+use crate::component::Residual;
+use crate::component::SubFrame;
+use crate::config;
+
+// ---------------------------------------------------------------- kernels
+
+pub fn encode_signbit(v: i32) -> u32 {
+    crate::rice::encode_signbit(v)
+}
+
+pub fn decode_signbit(v: u32) -> i32 {
+    crate::rice::decode_signbit(v)
+}
+
+/// Returns `(order, ps, code_bits)`.
+pub fn find_partitioned_rice_parameter(
+    signal: &[i32],
+    warmup_length: usize,
+    max_p: usize,
+) -> (usize, Vec<u8>, usize) {
+    let p = crate::rice::find_partitioned_rice_parameter(signal, warmup_length, max_p);
+    (p.order, p.ps, p.code_bits)
+}
+
+pub fn finest_partition_order(size: usize, min_part_size: usize) -> usize {
+    crate::rice::verif_finest_partition_order(size, min_part_size)
+}
+
+pub fn encode_residual(config: &config::Prc, errors: &[i32], warmup_length: usize) -> Residual {
+    crate::coding::encode_residual(config, errors, warmup_length)
+}
+
+pub fn encode_subframe(
+    config: &config::SubFrameCoding,
+    samples: &[i32],
+    bits_per_sample: u8,
+) -> SubFrame {
+    crate::coding::verif_encode_subframe(config, samples, bits_per_sample)
+}
+
+/// Errors of the fixed predictors of order 0..=4.
+pub fn fixed_lpc_errors(signal: &[i32]) -> Vec<Vec<i32>> {
+    crate::coding::verif_fixed_lpc_errors(signal)
+}
+
+pub fn estimate_entropy(errors: &[i32], warmup_len: usize, partitions: usize) -> usize {
+    crate::coding::verif_estimate_entropy(errors, warmup_len, partitions)
+}
+
+pub fn compute_error(
+    coefs: &[i16],
+    shift: i8,
+    precision: usize,
+    signal: &[i32],
+) -> Vec<i32> {
+    let qps = QuantizedParameters::from_parts(coefs, coefs.len(), shift, precision);
+    let mut errors = vec![0i32; signal.len()];
+    crate::lpc::compute_error(&qps, signal, &mut errors);
+    errors
+}
+
+/// Returns `(coefs, shift, precision)` of the quantized parameters.
+pub fn quantize_parameters(coefs: &[f64], precision: usize) -> (Vec<i16>, i8, usize) {
+    let q = crate::lpc::quantize_parameters(coefs, precision);
+    (q.coefs(), q.shift(), q.precision())
+}
+
+pub fn window_fingerprint(w: &config::Window) -> u64 {
+    crate::lpc::verif_fingerprint_window(w)
+}
+
+pub fn deinterleave(interleaved: &[i32], channels: usize, channel_stride: usize, dest: &mut [i32]) {
+    crate::arrayutils::deinterleave(interleaved, channels, channel_stride, dest);
+}
+
+pub fn le_bytes_to_i32s(bytes: &[u8], dest: &mut [i32], bytes_per_sample: usize) {
+    crate::arrayutils::le_bytes_to_i32s(bytes, dest, bytes_per_sample);
+}
+
+pub fn i32s_to_le_bytes(ints: &[i32], dest: &mut [u8], bytes_per_sample: usize) {
+    crate::arrayutils::i32s_to_le_bytes(ints, dest, bytes_per_sample);
+}
+
+pub fn encode_to_utf8like(val: u64) -> Option<Vec<u8>> {
+    crate::component::verif_encode_to_utf8like(val)
+}
+
+/// `(tag, extra bit count, block size decoded back from the spec)`.
+pub fn block_size_code(size: u16) -> (u8, usize, Option<usize>) {
+    let spec = crate::component::BlockSizeSpec::from_size(size);
+    (spec.tag(), spec.count_extra_bits(), spec.block_size())
+}
+
+/// `(tag, extra bit count, extra value)` or `None` when no code exists.
+pub fn sample_rate_code(freq: u32) -> Option<(u8, usize, u32)> {
+    use crate::component::SampleRateSpec;
+    SampleRateSpec::from_freq(freq).map(|spec| {
+        let extra = match spec {
+            SampleRateSpec::KHz(v) => u32::from(v),
+            SampleRateSpec::Hz(v) | SampleRateSpec::DaHz(v) => u32::from(v),
+            _ => 0,
+        };
+        (spec.tag(), spec.count_extra_bits(), extra)
+    })
+}
+
+pub fn sample_size_code(bits: u8) -> Option<u8> {
+    crate::component::SampleSizeSpec::from_bits(bits).map(crate::component::SampleSizeSpec::into_tag)
+}
+
+#[cfg(feature = "par")]
+pub fn determine_worker_count(config: &config::Encoder) -> Option<usize> {
+    crate::par::verif_determine_worker_count(config)
+}
+
+// ------------------------------------------------------------- oracle log
+
+/// A float-derived intermediate value consumed by the integer decision logic.
+#[derive(Clone, Debug, PartialEq, Eq)]
+pub enum OracleEvent {
+    /// Quantized LPC parameters produced in `estimated_qlpc`.
+    Qlpc {
+        coefs: Vec<i16>,
+        shift: i8,
+        precision: usize,
+    },
+    /// `estimate_entropy` result for one candidate fixed order.
+    FixedEstimate { order: usize, bits: usize },
+}
+
+thread_local! {
+    static ORACLE_LOG: RefCell<Option<Vec<OracleEvent>>> = const { RefCell::new(None) };
+}
+
+/// Starts recording oracle events on this thread.
+pub fn oracle_start() {
+    ORACLE_LOG.with(|l| *l.borrow_mut() = Some(Vec::new()));
+}
+
+/// Stops recording and returns the recorded events.
+pub fn oracle_take() -> Vec<OracleEvent> {
+    ORACLE_LOG.with(|l| l.borrow_mut().take().unwrap_or_default())
+}
+
+pub(crate) fn oracle_push(ev: OracleEvent) {
+    ORACLE_LOG.with(|l| {
+        if let Some(v) = l.borrow_mut().as_mut() {
+            v.push(ev);
+        }
+    });
+}
+
+// -------------------------------------------------------- scheduling points
+
+/// One protocol event of the multi-thread encoder.
+#[derive(Clone, Debug, PartialEq, Eq)]
+pub struct SchedEvent {
+    /// Small integer identifying the thread (0 = first thread seen).
+    pub thread: usize,
+    pub site: &'static str,
+    pub buf: Option<usize>,
+    pub frame: Option<usize>,
+    pub qlen: Option<usize>,
+}
+
+struct SchedState {
+    log: Vec<SchedEvent>,
+    threads: HashMap<std::thread::ThreadId, usize>,
+    rng: u64,
+    intensity: u32,
+}
+
+static SCHED: Mutex<Option<SchedState>> = Mutex::new(None);
+
+/// Starts logging; `intensity` in 0..=100 is the percentage of scheduling
+/// points at which the calling thread yields or sleeps (chosen by `seed`).
+pub fn sched_start(seed: u64, intensity: u32) {
+    *SCHED.lock().unwrap_or_else(std::sync::PoisonError::into_inner) = Some(SchedState {
+        log: Vec::new(),
+        threads: HashMap::new(),
+        rng: seed | 1,
+        intensity,
+    });
+}
+
+pub fn sched_take() -> Vec<SchedEvent> {
+    SCHED
+        .lock()
+        .unwrap_or_else(std::sync::PoisonError::into_inner)
+        .take()
+        .map(|s| s.log)
+        .unwrap_or_default()
+}
+
+#[allow(dead_code)]
+pub(crate) fn sched_point(
+    site: &'static str,
+    buf: Option<usize>,
+    frame: Option<usize>,
+    qlen: Option<usize>,
+) {
+    let action = {
+        let mut guard = SCHED.lock().unwrap_or_else(std::sync::PoisonError::into_inner);
+        let Some(st) = guard.as_mut() else {
+            return;
+        };
+        let tid = std::thread::current().id();
+        let n = st.threads.len();
+        let thread = *st.threads.entry(tid).or_insert(n);
+        st.log.push(SchedEvent {
+            thread,
+            site,
+            buf,
+            frame,
+            qlen,
+        });
+        // xorshift64
+        st.rng ^= st.rng << 13;
+        st.rng ^= st.rng >> 7;
+        st.rng ^= st.rng << 17;
+        let r = (st.rng >> 16) as u32;
+        if r % 100 < st.intensity {
+            1 + (r >> 8) % 3
+        } else {
+            0
+        }
+    };
+    match action {
+        1 => std::thread::yield_now(),
+        2 => std::thread::sleep(std::time::Duration::from_micros(50)),
+        3 => std::thread::sleep(std::time::Duration::from_micros(500)),
+        _ => {}
+    }
+}
